@@ -1115,4 +1115,114 @@ theorem sim_dyTemplate {σ : RSt} {π : PSt} (cfg : Cfg) (N : Nat) (hsim : ∀ m
     · unfold execDy at hr; simp at hr
     · unfold execDy at hr; simp at hr
 
+/-! ### `lambda_wrap`: what the wrapper of an operand is -/
+
+theorem niladic_eq (k : TokKind) :
+    niladic k = (match k with | .string | .number | .cnum | .cstr | .vget | .cpnum => true | _ => false) := by
+  cases k <;> rfl
+
+theorem arE_declared (ar : Option Nat) : ArE (arityExpr ar) (match ar with | some a => (a : Int) | Option.none => 1) := by
+  cases ar with
+  | none => right; exact ⟨rfl, rfl⟩
+  | some a =>
+    left
+    have : ¬ ((a : Int) < 0) := by omega
+    simp [arityExpr, pyInt, this]
+
+/-- the wrapper `lambda_wrap` builds for a modifier's operand: a lambda whose arity and body are `wrapArity`'s -/
+theorem wrap_spec (cfg : Cfg) (env : TEnv) (hE : cfg.elements = env.elements) (a : Structure) (k : Nat) (fa : List PyStmt) (k1 : Nat)
+    (hw : wrapLambda env k a = .ok (fa, k1)) (hf : fragS env.elements a = true) :
+    ∃ arE B, fa = lambdaTemplate (digitsOfNat k) arE B ∧ ArE arE (wrapArity cfg a).1 ∧ IsTr env (wrapArity cfg a).2 B ∧
+      fragL env.elements (wrapArity cfg a).2 = true := by
+  have other : ∀ s : Structure, fragS env.elements s = true →
+      (∀ b k2, transpileS env (k + 1) s = .ok (b, k2) →
+        ∃ arE B, lambdaTemplate (digitsOfNat k) (.cint 1) b = lambdaTemplate (digitsOfNat k) arE B ∧ ArE arE 1 ∧ IsTr env [s] B ∧
+          fragL env.elements [s] = true) := by
+    intro s hs b k2 hb
+    refine ⟨.cint 1, b, rfl, Or.inl rfl, ⟨k + 1, b ++ [], k2, ?_, Or.inl (by simp)⟩, by simp [fragL, hs]⟩
+    simp [transpileL, hb]
+  cases a with
+  | generic t =>
+    simp only [wrapLambda] at hw
+    cases ht : transpileToken env t with
+    | error e => simp [ht] at hw
+    | ok b =>
+      simp [ht] at hw; obtain ⟨h1, _⟩ := hw; subst h1
+      have h2 : (wrapArity cfg (.generic t)).2 = [.generic t] := rfl
+      rw [h2]
+      refine ⟨_, b, rfl, Or.inl ?_, ⟨k, b ++ [], k, ?_, Or.inl (by simp)⟩, by simpa [fragL] using hf⟩
+      · simp only [wrapArity, niladic_eq, hE]
+        rfl
+      · simp [transpileL, transpileS, ht]
+  | lam ar body =>
+    simp only [wrapLambda, transpileS] at hw
+    cases hb : transpileL env (k + 1) body with
+    | error e => simp [hb] at hw
+    | ok r =>
+      obtain ⟨b, k2⟩ := r
+      simp [hb] at hw; obtain ⟨h1, _⟩ := hw; subst h1
+      have h2 : (wrapArity cfg (.lam ar body)).2 = body := rfl
+      rw [h2]
+      exact ⟨_, orPass b, rfl, arE_declared ar, ⟨k + 1, b, k2, hb, Or.inr rfl⟩, by simpa [fragS] using hf⟩
+  | brk p =>
+    simp only [wrapLambda] at hw
+    cases hb : transpileS env (k + 1) (.brk p) with
+    | error e => simp [hb] at hw
+    | ok r => obtain ⟨b, k2⟩ := r; simp [hb] at hw; obtain ⟨h1, _⟩ := hw; subst h1; exact other _ hf b k2 hb
+  | recurse p =>
+    simp only [wrapLambda] at hw
+    cases hb : transpileS env (k + 1) (.recurse p) with
+    | error e => simp [hb] at hw
+    | ok r => obtain ⟨b, k2⟩ := r; simp [hb] at hw; obtain ⟨h1, _⟩ := hw; subst h1; exact other _ hf b k2 hb
+  | ifS bs =>
+    simp only [wrapLambda] at hw
+    cases hb : transpileS env (k + 1) (.ifS bs) with
+    | error e => simp [hb] at hw
+    | ok r => obtain ⟨b, k2⟩ := r; simp [hb] at hw; obtain ⟨h1, _⟩ := hw; subst h1; exact other _ hf b k2 hb
+  | forS ns body =>
+    simp only [wrapLambda] at hw
+    cases hb : transpileS env (k + 1) (.forS ns body) with
+    | error e => simp [hb] at hw
+    | ok r => obtain ⟨b, k2⟩ := r; simp [hb] at hw; obtain ⟨h1, _⟩ := hw; subst h1; exact other _ hf b k2 hb
+  | whileS c body =>
+    simp only [wrapLambda] at hw
+    cases hb : transpileS env (k + 1) (.whileS c body) with
+    | error e => simp [hb] at hw
+    | ok r => obtain ⟨b, k2⟩ := r; simp [hb] at hw; obtain ⟨h1, _⟩ := hw; subst h1; exact other _ hf b k2 hb
+  | fnCall nme =>
+    simp only [wrapLambda] at hw
+    cases hb : transpileS env (k + 1) (.fnCall nme) with
+    | error e => simp [hb] at hw
+    | ok r => obtain ⟨b, k2⟩ := r; simp [hb] at hw; obtain ⟨h1, _⟩ := hw; subst h1; exact other _ hf b k2 hb
+  | fnDef nme ps body =>
+    simp only [wrapLambda] at hw
+    cases hb : transpileS env (k + 1) (.fnDef nme ps body) with
+    | error e => simp [hb] at hw
+    | ok r => obtain ⟨b, k2⟩ := r; simp [hb] at hw; obtain ⟨h1, _⟩ := hw; subst h1; exact other _ hf b k2 hb
+  | lamOp kd body =>
+    simp only [wrapLambda] at hw
+    cases hb : transpileS env (k + 1) (.lamOp kd body) with
+    | error e => simp [hb] at hw
+    | ok r => obtain ⟨b, k2⟩ := r; simp [hb] at hw; obtain ⟨h1, _⟩ := hw; subst h1; exact other _ hf b k2 hb
+  | listS items =>
+    simp only [wrapLambda] at hw
+    cases hb : transpileS env (k + 1) (.listS items) with
+    | error e => simp [hb] at hw
+    | ok r => obtain ⟨b, k2⟩ := r; simp [hb] at hw; obtain ⟨h1, _⟩ := hw; subst h1; exact other _ hf b k2 hb
+  | mon m x =>
+    simp only [wrapLambda] at hw
+    cases hb : transpileS env (k + 1) (.mon m x) with
+    | error e => simp [hb] at hw
+    | ok r => obtain ⟨b, k2⟩ := r; simp [hb] at hw; obtain ⟨h1, _⟩ := hw; subst h1; exact other _ hf b k2 hb
+  | dy m x y =>
+    simp only [wrapLambda] at hw
+    cases hb : transpileS env (k + 1) (.dy m x y) with
+    | error e => simp [hb] at hw
+    | ok r => obtain ⟨b, k2⟩ := r; simp [hb] at hw; obtain ⟨h1, _⟩ := hw; subst h1; exact other _ hf b k2 hb
+  | tri m x y z =>
+    simp only [wrapLambda] at hw
+    cases hb : transpileS env (k + 1) (.tri m x y z) with
+    | error e => simp [hb] at hw
+    | ok r => obtain ⟨b, k2⟩ := r; simp [hb] at hw; obtain ⟨h1, _⟩ := hw; subst h1; exact other _ hf b k2 hb
+
 end Vy.Sem
